@@ -88,3 +88,37 @@ func VerifC07_FloatPair() {
 	}
 	vrt.Reach("end")
 }
+
+// VerifC07_FloatSpecials: three values per block, each one of +0, -0, +Inf, -Inf (sign and "infinite" are
+// symbolic bits; the XOR of neighbours is then confined to the sign and exponent bits, which keeps the bit
+// layout to a handful of cases). None of them is NaN, so the batch encoder must accept the block exactly
+// as the scalar encoder does, and both decoders return the three values bit-exactly.
+func VerifC07_FloatSpecials() {
+	orig := make([]float64, 3)
+	for i := range orig {
+		s := uint64(vrt.Byte(vrt.N("sign", i)))
+		inf := uint64(vrt.Byte(vrt.N("inf", i)))
+		vrt.Assume(vrt.And(s <= 1, inf <= 1))
+		orig[i] = math.Float64frombits(s<<63 | inf*0x7FF0000000000000)
+	}
+	e := NewFloatEncoder()
+	for _, v := range orig {
+		e.Write(v)
+	}
+	e.Flush()
+	_, serr := e.Bytes()
+	vrt.Assert(serr == nil, "float specials: scalar encoder accepts a block of zeros and infinities")
+	b, err := FloatArrayEncodeAll(append([]float64(nil), orig...), nil)
+	vrt.Assert(err == nil, "float specials: batch encoder accepts a block of zeros and infinities (no NaN in the input)")
+	if err != nil {
+		return
+	}
+	got, err := FloatArrayDecodeAll(b, nil)
+	vrt.Assert(err == nil && len(got) == 3, "float specials: batch decode returns 3 values")
+	if len(got) == 3 {
+		for i := range orig {
+			vrt.Assert(math.Float64bits(got[i]) == math.Float64bits(orig[i]), "float specials: identical bits")
+		}
+	}
+	vrt.Reach("end")
+}
